@@ -270,6 +270,23 @@ func ruleWrapCallsOnce(c *chk.Ctx) {
 	c.Floor("PAIR.wrap", 6, "guard, error edge, pass-through, output decoders, refusal returns")
 }
 
+// strictField is the FuncInfo option the exported setter SetStrict stores.
+func strictField(c *chk.Ctx) *types.Var {
+	f := handlerFunc(c, "(*FuncInfo).SetStrict")
+	if f == nil {
+		return nil
+	}
+	var out *types.Var
+	ir.Instrs(f, func(ins ssa.Instruction) {
+		if st, ok := ins.(*ssa.Store); ok {
+			if fa, ok := st.Addr.(*ssa.FieldAddr); ok && st.Val == ssa.Value(f.Params[1]) {
+				out = ir.FieldVar(fa)
+			}
+		}
+	})
+	return out
+}
+
 // ruleWrapSnapshot: C15-D4: the closures Wrap hands out do not read the
 // FuncInfo's options at call time.
 func ruleWrapSnapshot(c *chk.Ctx) {
@@ -280,12 +297,19 @@ func ruleWrapSnapshot(c *chk.Ctx) {
 	}
 	n := 0
 	seenCl := map[*ssa.Function]bool{}
-	for _, name := range []string{"(*FuncInfo).Wrap", "(*FuncInfo).argWrapper"} {
-		f := handlerFunc(c, name)
-		if f == nil {
-			c.Undecided("WHO.snapshot", nil, name, 0, "not found")
-			continue
+	wrap := handlerFunc(c, "(*FuncInfo).Wrap")
+	if wrap == nil {
+		c.Undecided("WHO.snapshot", nil, "(*FuncInfo).Wrap", 0, "not found")
+		return
+	}
+	// Wrap and the private FuncInfo methods it builds the handler with
+	builders := []*ssa.Function{wrap}
+	for _, g := range c.P.Ext(wrap) {
+		if g != wrap && g.Parent() == nil && g.Signature.Recv() != nil && ir.RecvNamed(g) != nil && ir.RecvNamed(g).Obj() == fiT {
+			builders = append(builders, g)
 		}
+	}
+	for _, f := range builders {
 		for _, cl := range handedOut(c, f) {
 			if cl.Parent() == nil || seenCl[cl] {
 				continue // only what runs at call time: the closures
@@ -307,11 +331,17 @@ func ruleWrapSnapshot(c *chk.Ctx) {
 		c.Undecided("WHO.snapshot", nil, "handler closures", 0, "found %d closures under Wrap/argWrapper (confirmed by hand: ≥ 4)", n)
 	}
 	// the strict stub is chosen exactly when strictFields ∧ ¬Implements(strictType)
-	aw := handlerFunc(c, "(*FuncInfo).argWrapper")
+	var aw *ssa.Function
+	c.P.ExtInstrs(wrap, func(ins ssa.Instruction) {
+		if call, ok := ins.(*ssa.Call); ok && call.Call.IsInvoke() && call.Call.Method.Name() == "Implements" && aw == nil {
+			aw = ir.Root(ins.Parent())
+		}
+	})
+	strictF := strictField(c)
 	if aw != nil {
 		hasStrict, hasImpl := false, false
 		c.P.ExtInstrs(aw, func(ins ssa.Instruction) {
-			if fa, ok := ins.(*ssa.FieldAddr); ok && ir.FieldVar(fa).Name() == "strictFields" {
+			if fa, ok := ins.(*ssa.FieldAddr); ok && strictF != nil && ir.FieldVar(fa) == strictF {
 				hasStrict = true
 			}
 			if call, ok := ins.(*ssa.Call); ok && call.Call.IsInvoke() && call.Call.Method.Name() == "Implements" {
@@ -324,7 +354,7 @@ func ruleWrapSnapshot(c *chk.Ctx) {
 
 // ruleCheckRefusals: C15-D5/D6.
 func ruleCheckRefusals(c *chk.Ctx) {
-	f := c.M.HandlerPkg.Func("Check")
+	f := c.M.Func(c.M.HandlerPkg, "Check")
 	if f == nil {
 		c.Undecided("TABLE.check", nil, "Check", 0, "not found")
 		return
@@ -680,7 +710,7 @@ func isCallResultErr(v ssa.Value) bool {
 
 // rulePositional: C16-D1.
 func rulePositional(c *chk.Ctx) {
-	pos := c.M.HandlerPkg.Func("Positional")
+	pos := c.M.Func(c.M.HandlerPkg, "Positional")
 	// the parts by role: the function that builds the argument struct (calls reflect.StructOf)
 	// and the function that generates the caller (calls reflect.MakeFunc), whatever they are named
 	var mat, mc *ssa.Function
@@ -711,7 +741,7 @@ func rulePositional(c *chk.Ctx) {
 			return
 		}
 		fa, ok := st.Addr.(*ssa.FieldAddr)
-		if !ok || ir.FieldVar(fa).Name() != "strictFields" {
+		if !ok || ir.FieldVar(fa) == nil || ir.FieldVar(fa) != strictField(c) {
 			return
 		}
 		if k, ok := st.Val.(*ssa.Const); ok && k.Value != nil && k.Value.String() == "true" {
@@ -1017,7 +1047,7 @@ func ruleDecodeTargets(c *chk.Ctx) {
 func ruleStubsKeepStrictness(c *chk.Ctx) {
 	n := 0
 	for _, f := range pkgFuncs(c, c.M.HandlerPkg) {
-		if f.Parent() != nil || f.Name() != "UnmarshalJSON" || f.Signature.Recv() == nil || f.Synthetic != "" {
+		if f.Parent() != nil || ir.BaseName(f) != "UnmarshalJSON" || f.Signature.Recv() == nil || f.Synthetic != "" {
 			continue
 		}
 		st := recvStruct(f)
